@@ -53,6 +53,14 @@ Theorem C04_relname_cmp_repr : forall ra rb a b, denotes ra a -> denotes rb b ->
 Proof. exact relname_cmp_repr. Qed.
 Print Assumptions C04_relname_cmp_repr.
 
+Theorem C04_name_ord_repr : forall ra rb a b, denotes ra (a ++ [[]]) -> denotes rb (b ++ [[]]) -> valid_abs a -> m_name_ord ra rb = Ok (name_cmp a b) /\ m_parsed_ord ra rb = Ok (name_cmp a b).
+Proof. exact name_ord_repr. Qed.
+Print Assumptions C04_name_ord_repr.
+
+Theorem C04_relname_ord_repr : forall ra rb a b, denotes ra a -> denotes rb b -> valid_rel a -> m_relname_ord ra rb = Ok (name_cmp a b).
+Proof. exact relname_ord_repr. Qed.
+Print Assumptions C04_relname_ord_repr.
+
 Theorem C04_eq_implies_same_hash : forall ra rb a b, denotes ra (a ++ [[]]) -> denotes rb (b ++ [[]]) -> valid_abs a -> valid_abs b -> m_name_eq ra rb = Ok true -> m_name_hash ra = m_name_hash rb.
 Proof. exact eq_implies_same_hash. Qed.
 Print Assumptions C04_eq_implies_same_hash.
